@@ -36,6 +36,10 @@ Lemma inv_push s ts : Inv s -> Inv (push_tasks s ts).
 Proof. apply inv_same; reflexivity. Qed.
 Lemma inv_set_data s d w : Inv s -> Inv (set_data s d w).
 Proof. apply inv_same; reflexivity. Qed.
+Lemma inv_set_state s p x : Inv s -> Inv (set_state s p x).
+Proof. apply inv_same; reflexivity. Qed.
+Lemma inv_attach_now s p k : Inv s -> Inv (attach_now s p k).
+Proof. intros H. unfold attach_now. destruct (cs (core_at s p)); [|apply inv_push..]; revert H; apply inv_same; reflexivity. Qed.
 
 (* counting a resolve run: counter 0 -> 1, at most one log entry for k *)
 Lemma inv_res_step s k v (logit : bool) :
@@ -88,23 +92,27 @@ Proof.
     assert (Hrc : rc (cont_at s k) = 0) by lia. rewrite Hrc.
     pose proof (inv_res_step s k v true H Hk Hrc) as Ht.
     pose proof (inv_res_step s k v false H Hk Hrc) as Hf. cbn zeta in Ht, Hf. cbn [negb] in *.
-    destruct (ck (cont_at s k)) as [dst|dst|d idx|d].
+    destruct (ck (cont_at s k)) as [dst|dst|d idx|d|dst inner m|dst].
     + apply inv_settle. exact Ht.
     + exact Ht.
     + destruct (wdone _); [exact Hf|].
       match goal with |- Inv (if ?b then _ else _) => destruct b end;
         [apply inv_settle|]; apply inv_set_data; exact Hf.
     + destruct (wdone _); [exact Hf|]. apply inv_settle, inv_set_data. exact Hf.
+    + apply inv_attach_now, inv_set_state. exact Ht.
+    + apply inv_settle. exact Hf.
   - destruct (Nat.ltb_spec k (length (conts s))) as [Hk|Hk]; cbn [negb]; [|exact H].
     destruct (Nat.leb_spec 1 (jc (cont_at s k))) as [Hr|Hr]; [exact H|].
     assert (Hjc : jc (cont_at s k) = 0) by lia. rewrite Hjc.
     pose proof (inv_rej_step s k e true H Hk Hjc) as Ht.
     pose proof (inv_rej_step s k e false H Hk Hjc) as Hf. cbn zeta in Ht, Hf.
-    destruct (ck (cont_at s k)) as [dst|dst|d idx|d].
-    + destruct (ch (cont_at s k)); [apply inv_settle|apply inv_push]; exact Ht.
+    destruct (ck (cont_at s k)) as [dst|dst|d idx|d|dst inner m|dst].
+    + destruct (ch (cont_at s k)); [apply inv_settle|]; exact Ht.
     + destruct (ch (cont_at s k)); [apply inv_settle|]; exact Ht.
     + destruct (wdone _); [exact Hf|]. apply inv_settle, inv_set_data. exact Hf.
     + destruct (wdone _); [exact Hf|]. apply inv_settle, inv_set_data. exact Hf.
+    + destruct (ch (cont_at s k)); [apply inv_settle|]; exact Ht.
+    + apply inv_settle. exact Hf.
 Qed.
 
 Lemma inv_drain : forall fuel s, Inv s -> Inv (drain fuel s).
@@ -117,18 +125,23 @@ Qed.
 Lemma inv_new_core s : Inv s -> Inv (new_core s).
 Proof. apply inv_same; reflexivity. Qed.
 
+Lemma inv_add_cont s c : rc c = 0 -> jc c = 0 -> Inv s ->
+  Inv (mkPst (cores s) (conts s ++ [c]) (datas s) (stack s) (plog s)).
+Proof.
+  intros Hr Hj H k. specialize (H k). unfold cont_at in *. cbn [conts plog].
+  destruct (Nat.lt_ge_cases k (length (conts s))) as [Hk|Hk].
+  - rewrite app_nth1 by exact Hk. exact H.
+  - rewrite nth_overflow in H by exact Hk. cbn [rc jc] in H.
+    rewrite app_nth2 by exact Hk. destruct (k - length (conts s)) as [|m]; cbn [nth].
+    + rewrite Hr, Hj. lia.
+    + destruct m; cbn [rc jc]; lia.
+Qed.
+
 Lemma inv_attach_start s src c : rc c = 0 -> jc c = 0 -> Inv s -> Inv (attach_start s src c).
 Proof.
   intros Hr Hj H. unfold attach_start.
   set (s1 := mkPst (cores s) (conts s ++ [c]) (datas s) (stack s) (plog s)).
-  assert (H1 : Inv s1).
-  { intros k. specialize (H k). unfold cont_at in *. cbn [conts plog s1].
-    destruct (Nat.lt_ge_cases k (length (conts s))) as [Hk|Hk].
-    - rewrite app_nth1 by exact Hk. exact H.
-    - rewrite nth_overflow in H by exact Hk. cbn [rc jc] in H.
-      rewrite app_nth2 by exact Hk. destruct (k - length (conts s)) as [|m]; cbn [nth].
-      + rewrite Hr, Hj. lia.
-      + destruct m; cbn [rc jc]; lia. }
+  assert (H1 : Inv s1) by (apply inv_add_cont; assumption).
   destruct (cs (core_at s1 src)); [exact H1|apply inv_push; exact H1..].
 Qed.
 
@@ -148,9 +161,15 @@ Qed.
 
 Lemma inv_exec s o : Inv s -> Inv (exec s o).
 Proof.
-  intros H. destruct o as [|src vr h|p v|p e|ins|ins]; cbn [exec].
+  intros H. destruct o as [|src vr h|src m h|k ok v|p v|p|p e|ins|ins]; cbn [exec].
   - apply inv_new_core, H.
   - apply inv_attach; [reflexivity..|apply inv_new_core, H].
+  - apply inv_attach; [reflexivity..|].
+    apply (inv_add_cont (new_core (new_core s))); [reflexivity..|]. apply inv_new_core, inv_new_core, H.
+  - destruct (ck (cont_at s k)) as [| | | |dst inner [| |]|]; try exact H.
+    destruct (Nat.leb 1 _); [|exact H].
+    destruct (cs (core_at s inner)); [apply inv_drain, inv_settle, H|apply inv_add_err, H..].
+  - destruct (cs (core_at s p)); [apply inv_drain, inv_settle, H|apply inv_add_err, H..].
   - destruct (cs (core_at s p)); [apply inv_drain, inv_settle, H|apply inv_add_err, H..].
   - destruct (cs (core_at s p)); [apply inv_drain, inv_settle, H|apply inv_add_err, H..].
   - match goal with |- Inv (fst (fold_left ?f ins ?init)) =>
@@ -181,6 +200,9 @@ Qed.
 (* ---------- no error is raised in a party that settles a pending promise ---------- *)
 Definition nerr (s : pst) : nat := count is_err (plog s).
 
+Lemma plog_attach_now s p k : plog (attach_now s p k) = plog s.
+Proof. unfold attach_now. destruct (cs (core_at s p)); reflexivity. Qed.
+
 Lemma nerr_run_task s t : nerr (run_task s t) = nerr s.
 Proof.
   unfold nerr. destruct t as [k v|k e]; cbn [run_task].
@@ -190,12 +212,15 @@ Proof.
     + destruct (wdone _); cbn [plog]; [reflexivity|].
       match goal with |- context [if ?b then _ else _] => destruct b end; reflexivity.
     + destruct (wdone _); reflexivity.
+    + rewrite plog_attach_now. cbn [set_state add_log plog]. rewrite count_app. cbn [is_err set_cont plog]. lia.
   - destruct (negb _); [reflexivity|]. destruct (Nat.leb 1 _); [reflexivity|].
     destruct (ck (cont_at s k)); cbn [settle push_tasks set_state add_log set_cont set_data plog].
     + destruct (ch _); cbn [settle push_tasks set_state add_log set_cont plog]; rewrite count_app; cbn; lia.
     + destruct (ch _); cbn [settle push_tasks set_state add_log set_cont plog]; rewrite count_app; cbn; lia.
     + destruct (wdone _); reflexivity.
     + destruct (wdone _); reflexivity.
+    + destruct (ch _); cbn [settle push_tasks set_state add_log set_cont plog]; rewrite count_app; cbn; lia.
+    + reflexivity.
 Qed.
 
 Lemma nerr_drain : forall fuel s, nerr (drain fuel s) = nerr s.
@@ -212,19 +237,41 @@ Proof.
   destruct (cs (core_at _ src)); reflexivity.
 Qed.
 
+(* the promise a PInner operation settles: the one returned by continuation k's callback, once that has run *)
+Definition inner_of (s : pst) (k : nat) : option nat :=
+  match ck (cont_at s k) with
+  | KProm _ inner MPending => if Nat.leb 1 (rc (cont_at s k)) then Some inner else None
+  | _ => None
+  end.
+
 (* the only way an error reaches a settling party is settling a promise that is not pending *)
 Theorem settle_error_only_when_not_pending s o :
   nerr (exec s o) = nerr s +
     match o with
-    | PResolve p _ | PReject p _ => match cs (core_at s p) with Pending => 0 | _ => 1 end
+    | PResolve p _ | PResolveV p | PReject p _ => match cs (core_at s p) with Pending => 0 | _ => 1 end
+    | PInner k _ _ => match inner_of s k with
+                      | Some p => match cs (core_at s p) with Pending => 0 | _ => 1 end
+                      | None => 0
+                      end
     | _ => 0
     end.
 Proof.
   assert (Hn : nerr (new_core s) = nerr s) by reflexivity.
   assert (Hs : forall p x, nerr (settle s p x) = nerr s) by reflexivity.
-  destruct o as [|src vr h|p v|p e|ins|ins]; cbn [exec].
+  destruct o as [|src vr h|src m h|k ok v|p v|p|p e|ins|ins]; cbn [exec].
   - rewrite Hn. lia.
   - rewrite nerr_attach, Hn. lia.
+  - rewrite nerr_attach. change (nerr s = nerr s + 0). lia.
+  - unfold inner_of. destruct (ck (cont_at s k)) as [| | | |dst inner [| |]|]; try lia.
+    destruct (Nat.leb 1 (rc (cont_at s k))); [|lia].
+    destruct (cs (core_at s inner)).
+    + rewrite nerr_drain, Hs. lia.
+    + unfold nerr. cbn [add_log plog]. rewrite count_app. reflexivity.
+    + unfold nerr. cbn [add_log plog]. rewrite count_app. reflexivity.
+  - destruct (cs (core_at s p)).
+    + rewrite nerr_drain, Hs. lia.
+    + unfold nerr. cbn [add_log plog]. rewrite count_app. reflexivity.
+    + unfold nerr. cbn [add_log plog]. rewrite count_app. reflexivity.
   - destruct (cs (core_at s p)).
     + rewrite nerr_drain, Hs. lia.
     + unfold nerr. cbn [add_log plog]. rewrite count_app. reflexivity.
@@ -242,4 +289,86 @@ Proof.
       assert (G : forall l acc, nerr (fold_left f l acc) = nerr acc) end.
     { induction l as [|x l IH]; intros acc; [reflexivity|]. cbn [fold_left]. rewrite IH. apply nerr_attach. }
     rewrite G. change (nerr s = nerr s + 0). lia.
+Qed.
+
+(* ---------- a rejection never triggers a fulfilment continuation ---------- *)
+Definition is_any_res (e : event) : bool := match e with ERes _ _ => true | _ => false end.
+Definition nresolved (s : pst) : nat := count is_any_res (plog s).
+Definition is_trej (t : task) : bool := match t with TRej _ _ => true | TRes _ _ => false end.
+
+Lemma settle_rejected_stack s p e : forallb is_trej (stack s) = true -> forallb is_trej (stack (settle s p (Rejected e))) = true.
+Proof.
+  intros H. unfold settle, push_tasks, set_state. cbn [stack]. rewrite forallb_app, H, Bool.andb_true_r.
+  induction (creqs (core_at s p)) as [|r l IH]; [reflexivity|]. cbn [map forallb is_trej]. exact IH.
+Qed.
+
+Lemma rej_task_keeps s k e :
+  forallb is_trej (stack s) = true ->
+  forallb is_trej (stack (run_task s (TRej k e))) = true /\ nresolved (run_task s (TRej k e)) = nresolved s.
+Proof.
+  intros H. unfold nresolved. cbn [run_task].
+  destruct (negb _); [split; [exact H|reflexivity]|]. destruct (Nat.leb 1 _); [split; [exact H|reflexivity]|].
+  set (c := cont_at s k).
+  set (s1 := set_cont s k (mkC (ck c) (ch c) (rc c) (S (jc c)))).
+  assert (H1 : forallb is_trej (stack s1) = true) by exact H.
+  assert (L1 : plog s1 = plog s) by reflexivity.
+  assert (HA : forall x ev, forallb is_trej (stack x) = true -> forallb is_trej (stack (add_log x ev)) = true) by (intros; assumption).
+  assert (HD : forall x d w, forallb is_trej (stack x) = true -> forallb is_trej (stack (set_data x d w)) = true) by (intros; assumption).
+  assert (LS : forall x p st, plog (settle x p st) = plog x) by reflexivity.
+  destruct (ck c) as [dst|dst|d idx|d|dst inner m|dst].
+  - destruct (ch c).
+    + split; [apply settle_rejected_stack, HA, H1|]. rewrite LS. cbn [add_log plog]. rewrite L1, count_app. cbn. lia.
+    + split; [apply HA, H1|]. cbn [add_log plog]. rewrite L1, count_app. cbn. lia.
+  - destruct (ch c).
+    + split; [apply settle_rejected_stack, HA, H1|]. rewrite LS. cbn [add_log plog]. rewrite L1, count_app. cbn. lia.
+    + split; [apply HA, H1|]. cbn [add_log plog]. rewrite L1, count_app. cbn. lia.
+  - destruct (wdone _); [split; [exact H1|rewrite L1; reflexivity]|].
+    split; [apply settle_rejected_stack, HD, H1|rewrite LS; reflexivity].
+  - destruct (wdone _); [split; [exact H1|rewrite L1; reflexivity]|].
+    split; [apply settle_rejected_stack, HD, H1|rewrite LS; reflexivity].
+  - destruct (ch c).
+    + split; [apply settle_rejected_stack, HA, H1|]. rewrite LS. cbn [add_log plog]. rewrite L1, count_app. cbn. lia.
+    + split; [apply HA, H1|]. cbn [add_log plog]. rewrite L1, count_app. cbn. lia.
+  - split; [apply settle_rejected_stack, H1|rewrite LS, L1; reflexivity].
+Qed.
+
+Lemma rej_drain : forall fuel s, forallb is_trej (stack s) = true -> nresolved (drain fuel s) = nresolved s.
+Proof.
+  induction fuel as [|f IH]; intros s H; [reflexivity|]. cbn [drain].
+  destruct (stack s) as [|t rest] eqn:E; [reflexivity|]. cbn [forallb] in H. apply andb_prop in H. destruct H as [Ht Hr].
+  destruct t as [k v|k e]; [discriminate|].
+  set (s0 := mkPst (cores s) (conts s) (datas s) rest (plog s)).
+  destruct (rej_task_keeps s0 k e Hr) as [Hs Hn]. rewrite IH by exact Hs. rewrite Hn. reflexivity.
+Qed.
+
+(* rejecting a promise (directly, or the one a continuation returned) runs no fulfilment callback, however long the
+   chains, whatever the handlers, combinators and returned promises behind it *)
+Theorem rejection_never_fulfils s p e :
+  stack s = [] -> nresolved (exec s (PReject p e)) = nresolved s.
+Proof.
+  intros Hst. cbn [exec]. destruct (cs (core_at s p)).
+  - rewrite rej_drain; [reflexivity|]. apply settle_rejected_stack. rewrite Hst. reflexivity.
+  - unfold nresolved. cbn [add_log plog]. rewrite count_app. cbn. lia.
+  - unfold nresolved. cbn [add_log plog]. rewrite count_app. cbn. lia.
+Qed.
+
+(* the rethrow handler forwards the same exception to the derived promise and to each of its continuations, in order;
+   any other handler stops the rejection there *)
+Theorem rethrow_forwards_same_exception s k e dst :
+  k < length (conts s) -> jc (cont_at s k) = 0 -> dst < length (cores s) ->
+  (ck (cont_at s k) = KVal dst \/ ck (cont_at s k) = KVoid dst \/ exists i m, ck (cont_at s k) = KProm dst i m) ->
+  let s' := run_task s (TRej k e) in
+  match ch (cont_at s k) with
+  | HThrow => cs (core_at s' dst) = Rejected e
+              /\ stack s' = map (fun r => TRej r e) (creqs (core_at s dst)) ++ stack s
+              /\ plog s' = plog s ++ [ERej k e]
+  | HSwallow => cores s' = cores s /\ stack s' = stack s /\ plog s' = plog s ++ [ERej k e]
+  end.
+Proof.
+  intros Hk Hj Hd Hkind. cbn [run_task].
+  destruct (Nat.ltb_spec k (length (conts s))) as [_|Hc]; [|lia]. cbn [negb]. rewrite Hj. cbn [Nat.leb].
+  assert (Hcore : forall x, cs (core_at (settle (add_log (set_cont s k x) (ERej k e)) dst (Rejected e)) dst) = Rejected e).
+  { intros x. unfold settle, push_tasks, set_state, core_at. cbn [cores add_log set_cont]. rewrite nth_setn_same by exact Hd. reflexivity. }
+  destruct Hkind as [Hkd|[Hkd|[i [m Hkd]]]]; rewrite Hkd; destruct (ch (cont_at s k)); cbn [settle push_tasks set_state add_log set_cont cores stack plog core_at];
+    try (split; [|split]; try reflexivity); try (rewrite nth_setn_same by exact Hd; reflexivity); apply Hcore.
 Qed.
